@@ -31,9 +31,9 @@ func init() {
 		ID:    "C07",
 		Level: "exploration",
 		Rule: "G1: well-formed Accept / Accept-Encoding values from the RFC 7231 grammar (1-6 ranges over a 10-type vocabulary incl. */* and type/*, parameters before and after q, parameter names ending in 'q', " +
-			"quoted strings, q-values with 0-80 (one long value in 25: 120-1000) fractional digits on a 1e-5 grid (same number in several spellings; distinct numbers differ by >= 5e-6), optional SP/HTAB, 1-3 field lines; one header in a hundred holds 9, 17, 33, 65 or (rarely) 257 ranges, one in a hundred is spread over 5-40 field lines, in half of both the only acceptable range comes last) x offer lists " +
+			"quoted strings, q-values with 0-80 (one long value in 25: 120-1000) fractional digits on a 1e-5 grid (same number in several spellings; distinct numbers differ by >= 5e-6; in one header in ten some or all written values are raised by one: 1.5, 1.001, 1.99999, 1.<80 digits> - the RFC's qvalue shape with any digits in the fraction, denoting numbers above 1 that compete with each other, with exactly 1 (written, or a range without q) and with values below 1), optional SP/HTAB, 1-3 field lines; one header in a hundred holds 9, 17, 33, 65 or (rarely) 257 ranges, one in a hundred is spread over 5-40 field lines, in half of both the only acceptable range comes last) x offer lists " +
 			"(permutations, duplicates, offers with parameters, empty; in 6% of the cases one to three offers are spelled with upper-case letters - application/vnd.ms-excel.sheet.macroEnabled.12, X-Snappy - and the header names them verbatim) x default present/absent; G2: arbitrary bytes and byte-level mutations of G1. Every case runs the real ParseAccept and Negotiate* functions; " +
-			"a share goes through the API handler (RoutesHandler over an untyped API built from generated Swagger 2.0; GET without body and POST with an admitted JSON body; the reflective operation handler and the call sequence of a generated server: RouteInfo, BindValidRequest, Respond - run from a Builder middleware on a Context made by NewContext, and, for a third of all requests, as the operation handler of a RoutableAPI (gen.GeneratedAPI) on a Context made by NewRoutableContext, the constructor generated servers use; one API default in ten carries parameters; one description in twelve declares types spelled with upper-case letters). " +
+			"a share goes through the API handler (RoutesHandler over an untyped API built from generated Swagger 2.0; a body-less GET, DELETE or PUT and a POST twin with an admitted JSON body, each operation declaring one success response - 200, or 201, 202, 204 (a third of the operations; a quarter declare 204, the DELETE/PUT that answers without content) - which its handler answers with; the reflective operation handler and the call sequence of a generated server: RouteInfo, BindValidRequest, Respond - run from a Builder middleware on a Context made by NewContext, and, for a third of all requests, as the operation handler of a RoutableAPI (gen.GeneratedAPI) on a Context made by NewRoutableContext, the constructor generated servers use; one API default in ten carries parameters; one description in twelve declares types spelled with upper-case letters). " +
 			"Every request of the handler level goes to a declared path and method: a request the router does not route, or that reaches the Builder's middleware without a MatchedRoute, is a violation. " +
 			"The offers of an operation are computed from its DECLARATION (produces of the operation, else of the spec, plus the API default); the observed MatchedRoute.Produces must be that set and only lends its order. " +
 			"The vocabulary holds types whose TYPE is a proper prefix of another (text / texture / textile), 'type/*' ranges on truncated and extended type names (tex/*, t/*, textx/*) and exact ranges one byte short or long (text/plai, text/plainx). " +
@@ -42,14 +42,15 @@ func init() {
 			"non-trivial = judged header with >= 2 acceptable ranges that match >= 2 distinct offers; distinct by (function, header lines, offers)",
 		Assumptions: []string{
 			"selection rule as stated: maximum over matching (range, offer) pairs of q, then range specificity (exact > type/* > */*), then earlier offer; parameters of ranges and offers are ignored for matching",
-			"strong oracle only inside the grammar: lower-case type/subtype tokens, 'q' written in lower case, no whitespace around '=', no '*/subtype', qvalue = 0[.digits] | 1[.zeros]; empty list elements are skipped (RFC 7230 section 7) and are part of the judged grammar; everything else is judged for totality and result-in-offers only",
+			"strong oracle only inside the grammar: lower-case type/subtype tokens, 'q' written in lower case, no whitespace around '=', no '*/subtype', qvalue = 0[.digits] | 1[.digits]; empty list elements are skipped (RFC 7230 section 7) and are part of the judged grammar; everything else is judged for totality and result-in-offers only",
 			"offers and ranges with upper-case letters: whether a range and an offer that differ in letter case only match is not stated; such a pair of header and offer list is judged (same selection rule) exactly when every (range, offer) pair matches verbatim iff it matches with case ignored - a range that names an offer byte for byte matches it under every reading - and only for headers of the plain form 'range[;q=value]' with at most 5 fraction digits; the letter case of the ranges ParseAccept hands out is not judged there",
+			"a q-value written 1.ddd with a non-zero fraction denotes a number above 1 and is ranked as that number (RFC 7231 caps a weight at 1; the statement's ordering clause - a smaller number never outranks a larger one, q with any number of digits - has no cap): 1.7 outranks 1.2, 1.001 outranks 1 and a range without q, each of them outranks 0.999; ParseAccept's Q must be ordered as these numbers are. Integer parts other than a single 0 or 1 (q=2, q=10, q=01.5, q=.5), signs and exponents are outside the judged grammar: whether such a parameter is a q-value at all the statement does not say",
 			"headers holding two different q-values closer than 1e-6 are not judged by the strong oracle",
 			"a header that is present but holds no range is not judged (the statement speaks of a missing header only)",
 			"header.ParseAccept is judged on what the selection rule needs: one spec per range in order with the range's type, Q == 0 exactly for quality 0, and Q ordered/equal as the exact decimals are",
 			"a choice mismatch of Negotiate*/the handler on a header whose ParseAccept result already failed its oracle is attributed to that parse violation and counted, not reported under a second signature",
 			"NegotiateContentEncoding: judged for result in offers/identity/\"\", maximum q, q=0, and earlier offer among offers tied on (q, specificity); the specificity tie-break and the no-header result are not stated for encodings and not judged",
-			"API handler: the offers are the declared produces list (operation level, else spec level) plus the API default; MatchedRoute.Produces must hold exactly that set (its order is a map order fixed at router build and is the only thing read from it); 406 <=> nothing in the declared set is acceptable; Content-Type is judged against the statement's offer order (produces without the default, default last)",
+			"API handler: the offers are the declared produces list (operation level, else spec level) plus the API default; MatchedRoute.Produces must hold exactly that set (its order is a map order fixed at router build and is the only thing read from it); 406 <=> nothing in the declared set is acceptable; Content-Type is judged against the statement's offer order (produces without the default, default last); an operation declaring 201, 202 or 204 as its success response is gated like one declaring 200 (the statement's 406 clause names no exception for responses without content), success is the declared status, and the Content-Type of a 204 response is judged only when the response carries one",
 			"the caller's offers slice and header lines must not be modified by Negotiate*/Parse* (the result is judged against copies taken before the call, so a result that is only a member of a rewritten list is 'not an offer')",
 			"ParseList, ParseValueAndParams, ParseAccept2, ParseTime: totality only",
 		},
@@ -133,6 +134,7 @@ type verdict struct {
 	want       accept.Pick
 	modified   string // what of the caller's the library modified: "offers" / "header"
 	mixed      bool   // judged through the mixed-case reading (offers or ranges with upper-case letters)
+	above1     bool   // a q-value of the header denotes a number above 1
 	modDetail  string
 }
 
@@ -268,7 +270,7 @@ func evalType(lines []string, offers []string, def string) (v verdict) {
 		v.why = why
 		return v
 	}
-	v.judged, v.mixed = true, mixed
+	v.judged, v.mixed, v.above1 = true, mixed, qAbove1(p.Ranges)
 	if p.Present {
 		v.pMode, v.pDetail = checkParseM(specs, p.Ranges, mixed)
 	}
@@ -346,7 +348,7 @@ func evalEnc(lines []string, offers []string) (v verdict) {
 		v.why = why
 		return v
 	}
-	v.judged, v.mixed = true, mixed
+	v.judged, v.mixed, v.above1 = true, mixed, qAbove1(p.Ranges)
 	if !p.Present {
 		return v // not stated for encodings
 	}
@@ -458,10 +460,16 @@ func runFunc(m *mon.M, c *Case) {
 	if v.mixed {
 		m.Class(pfx + ":judged/mixed-case")
 	}
+	if v.above1 {
+		m.Class(pfx + ":judged/q-above-1")
+	}
 	if v.decidedBy != "" {
 		m.Class(pfx + ":decided-by/" + v.decidedBy)
 		if v.mixed {
 			m.Class(pfx + ":mixed-case-decided-by/" + v.decidedBy)
+		}
+		if v.above1 {
+			m.Class(pfx + ":q-above-1-decided-by/" + v.decidedBy)
 		}
 	}
 	if v.nontrivial {
@@ -488,13 +496,27 @@ func runFunc(m *mon.M, c *Case) {
 	}
 	if v.mixed {
 		shrink = shrinkMixed
+	} else if v.above1 {
+		structural := shrink
+		shrink = func(l, o []string, media bool, fails func(l, o []string) bool) ([]string, []string) {
+			sl, so := shrinkAbove1(preShrinkLong(l, o, media, fails), o, media, fails)
+			if !qAbove1(parseStrict(sl, media).Ranges) {
+				// what is left fails without a value above 1: the structural shrinker takes over
+				return structural(sl, so, media, fails)
+			}
+			return sl, so
+		}
 	}
 	// the feature class of a parse violation: the header's most telling syntactic feature
 	feature := func(l []string, mixed bool) []string {
 		if mixed {
 			return []string{"mixed-case-range"}
 		}
-		f := accept.Features(l, accept.ParseStrict(l, media).Ranges)
+		rs := parseStrict(l, media).Ranges
+		f := accept.Features(l, rs)
+		if qAbove1(rs) {
+			f = append([]string{"qvalue-above-1"}, f...)
+		}
 		if countRanges(l) > 8 {
 			f = append([]string{"more-than-8-ranges"}, f...)
 		}
@@ -539,6 +561,9 @@ func runFunc(m *mon.M, c *Case) {
 		}
 		if w.mixed {
 			feat += "/mixed-case-offer"
+		}
+		if w.above1 {
+			feat += "/qvalue-above-1"
 		}
 		if nr := countRanges(sl); nr > 8 {
 			feat += "/more-than-8-ranges"
@@ -607,7 +632,7 @@ func runTotal(m *mon.M, c *Case) {
 	}
 	m.Class("total")
 	// bytes that happen to be inside the grammar get the strong oracle too
-	if p := accept.ParseStrict(lines, true); p.Judged {
+	if p := parseStrict(lines, true); p.Judged {
 		m.Class("total:inside-grammar")
 		cc := *c
 		cc.Kind = "type"
@@ -627,9 +652,32 @@ type APIDesc struct {
 	Post bool `json:"post_twin,omitempty"`
 }
 
-// OpDesc is one GET operation at /op<i>.
+// OpDesc is the body-less operation at /op<i> (and its POST twin, when the description has twins).
 type OpDesc struct {
 	Produces []string `json:"produces,omitempty"`
+	// Method of the body-less operation: "" = get; "delete", "put"
+	Method string `json:"method,omitempty"`
+	// Success is the status code of the one success response the operation (and its twin) declares: 0 = 200; 201, 202,
+	// 204. The operation's handler answers with it (without a body for 204).
+	Success int `json:"success,omitempty"`
+	// ErrDefault: the operation also declares a "default" (error) response
+	ErrDefault bool `json:"default_response,omitempty"`
+}
+
+// method is the (lower-case) method of the body-less operation op.
+func (d *APIDesc) method(op int) string {
+	if m := d.Ops[op].Method; m != "" {
+		return m
+	}
+	return "get"
+}
+
+// success is the status code operation op declares for success.
+func (d *APIDesc) success(op int) int {
+	if c := d.Ops[op].Success; c != 0 {
+		return c
+	}
+	return http.StatusOK
 }
 
 // declared is the produces list the description declares for operation op (its own, else the spec's).
@@ -643,14 +691,21 @@ func (d *APIDesc) declared(op int) []string {
 func (d *APIDesc) swagger() []byte {
 	paths := map[string]interface{}{}
 	for i, op := range d.Ops {
+		responses := func() map[string]interface{} {
+			rs := map[string]interface{}{fmt.Sprint(d.success(i)): map[string]interface{}{"description": "ok"}}
+			if op.ErrDefault {
+				rs["default"] = map[string]interface{}{"description": "error", "schema": map[string]interface{}{"type": "string"}}
+			}
+			return rs
+		}
 		o := map[string]interface{}{
 			"operationId": fmt.Sprintf("op%d", i),
-			"responses":   map[string]interface{}{"200": map[string]interface{}{"description": "ok"}},
+			"responses":   responses(),
 		}
 		if len(op.Produces) > 0 {
 			o["produces"] = op.Produces
 		}
-		item := map[string]interface{}{"get": o}
+		item := map[string]interface{}{d.method(i): o}
 		if d.Post {
 			po := map[string]interface{}{
 				"operationId": fmt.Sprintf("post%d", i),
@@ -658,7 +713,7 @@ func (d *APIDesc) swagger() []byte {
 				"parameters": []interface{}{map[string]interface{}{
 					"name": "body", "in": "body", "schema": map[string]interface{}{"type": "object"},
 				}},
-				"responses": map[string]interface{}{"200": map[string]interface{}{"description": "ok"}},
+				"responses": responses(),
 			}
 			if len(op.Produces) > 0 {
 				po["produces"] = op.Produces
@@ -694,11 +749,19 @@ type built struct {
 	cur  *Case
 }
 
+// handle is the application's handler of every operation: it answers with the success status the operation served
+// declares (no body for 204).
 func (b *built) handle() (interface{}, error) {
 	b.obs.ran = true
+	code := http.StatusOK
+	if b.cur != nil && b.cur.Op >= 0 && b.cur.Op < len(b.desc.Ops) {
+		code = b.desc.success(b.cur.Op)
+	}
 	return middleware.ResponderFunc(func(w http.ResponseWriter, p runtime.Producer) {
-		w.WriteHeader(http.StatusOK)
-		_ = p.Produce(w, "ok")
+		w.WriteHeader(code)
+		if code != http.StatusNoContent {
+			_ = p.Produce(w, "ok")
+		}
 	}), nil
 }
 
@@ -772,7 +835,7 @@ func build(d *APIDesc) (*built, error) {
 	for i := range d.Ops {
 		// The handler answers with a Responder: status and Content-Type are what C07 looks at, and the
 		// plain-value branch of Context.Respond (producer lookup) is C08's subject.
-		api.RegisterOperation("get", fmt.Sprintf("/op%d", i), runtime.OperationHandlerFunc(func(interface{}) (interface{}, error) { return b.handle() }))
+		api.RegisterOperation(d.method(i), fmt.Sprintf("/op%d", i), runtime.OperationHandlerFunc(func(interface{}) (interface{}, error) { return b.handle() }))
 		if d.Post {
 			api.RegisterOperation("post", fmt.Sprintf("/op%d", i), runtime.OperationHandlerFunc(func(interface{}) (interface{}, error) { return b.handle() }))
 		}
@@ -795,7 +858,7 @@ func (b *built) handler(routable bool) (http.Handler, *middleware.Context) {
 			},
 		}
 		for i := range b.desc.Ops {
-			g.Operation("get", fmt.Sprintf("/op%d", i), op)
+			g.Operation(b.desc.method(i), fmt.Sprintf("/op%d", i), op)
 			if b.desc.Post {
 				g.Operation("post", fmt.Sprintf("/op%d", i), op)
 			}
@@ -830,8 +893,8 @@ func (b *built) handler(routable bool) (http.Handler, *middleware.Context) {
 	return h, ctx
 }
 
-func producesOf(ctx *middleware.Context, op int) []string {
-	req := httptest.NewRequest(http.MethodGet, fmt.Sprintf("/op%d", op), nil)
+func producesOf(ctx *middleware.Context, method string, op int) []string {
+	req := httptest.NewRequest(strings.ToUpper(method), fmt.Sprintf("/op%d", op), nil)
 	if mr, ok := ctx.LookupRoute(req); ok {
 		return mr.Produces
 	}
@@ -856,7 +919,8 @@ func runHandlerOn(m *mon.M, c *Case, b *built, h http.Handler) {
 	*b.obs = observation{}
 	b.cur = c
 	body := c.Body && b.desc.Post
-	req := httptest.NewRequest(http.MethodGet, fmt.Sprintf("/op%d", c.Op), nil)
+	success := b.desc.success(c.Op)
+	req := httptest.NewRequest(strings.ToUpper(b.desc.method(c.Op)), fmt.Sprintf("/op%d", c.Op), nil)
 	if body {
 		req = httptest.NewRequest(http.MethodPost, fmt.Sprintf("/op%d", c.Op), strings.NewReader(`{"a":1}`))
 		req.Header.Set("Content-Type", "application/json")
@@ -881,6 +945,15 @@ func runHandlerOn(m *mon.M, c *Case, b *built, h http.Handler) {
 	if shape != "" {
 		m.Class("handler-shape:" + shape[1:])
 	}
+	// the operation's declared success response is part of the input class too: an operation that answers without
+	// content (204) declares its types - and is refused with 406 - like any other
+	switch {
+	case success == http.StatusNoContent:
+		shape += "/no-content-operation"
+	case success != http.StatusOK:
+		shape += "/success-status-other-than-200"
+	}
+	m.Class(fmt.Sprintf("handler-operation:%s-%d", b.desc.method(c.Op), success))
 	declared := b.desc.declared(c.Op)
 	if accept.HasOWSBeforeSemicolon(declared...) {
 		shape += "/declared-type-with-ows-before-semicolon"
@@ -894,7 +967,7 @@ func runHandlerOn(m *mon.M, c *Case, b *built, h http.Handler) {
 		// a panic is never attributed away; when ParseAccept already fails its oracle on this header the
 		// signature names the header's feature class, so that the two root causes stay apart
 		sig := "handler/panic"
-		if p := accept.ParseStrict(lines, true); p.Judged && p.Present {
+		if p := parseStrict(lines, true); p.Judged && p.Present {
 			var specs []header.AcceptSpec
 			mon.Catch(func() { specs = header.ParseAccept(req.Header, "Accept") })
 			if md, _ := checkParse(specs, p.Ranges); md != "" {
@@ -920,7 +993,7 @@ func runHandlerOn(m *mon.M, c *Case, b *built, h http.Handler) {
 		return
 	}
 	m.SetAdd("observed-produces-orders", strings.Join(obs.produces, " | "))
-	if obs.ran != (status == http.StatusOK) || (!obs.ran && status != http.StatusNotAcceptable) {
+	if obs.ran != (status == success) || (!obs.ran && status != http.StatusNotAcceptable) {
 		m.Violate("handler/status-and-handler-run-disagree"+shape, fmt.Sprintf("Accept=%q produces=%q: status %d, handler ran=%v", lines, obs.produces, status, obs.ran), minimal())
 		return
 	}
@@ -944,6 +1017,10 @@ func runHandlerOn(m *mon.M, c *Case, b *built, h http.Handler) {
 	if nr := countRanges(lines); nr > 8 {
 		m.Class("handler:judged/more-than-8-ranges")
 	}
+	if qAbove1(p.Ranges) {
+		m.Class("handler:judged/q-above-1")
+		shape += "/qvalue-above-1"
+	}
 	pFailed := false
 	if p.Present {
 		var specs []header.AcceptSpec
@@ -958,6 +1035,9 @@ func runHandlerOn(m *mon.M, c *Case, b *built, h http.Handler) {
 	mode, detail := "", ""
 	if gate.None {
 		m.Class("handler:expect-406")
+		if success == http.StatusNoContent {
+			m.Class("handler:expect-406/no-content-operation")
+		}
 		switch {
 		case obs.ran:
 			mode = "handler-ran-although-nothing-acceptable"
@@ -972,6 +1052,9 @@ func runHandlerOn(m *mon.M, c *Case, b *built, h http.Handler) {
 		case status == http.StatusNotAcceptable || !obs.ran:
 			mode = "spurious-406"
 			detail = fmt.Sprintf("Accept=%q admits %q of the declared types %q (default %q): got status %d, handler ran=%v (MatchedRoute.Produces %q)", lines, gate.Offer, declared, b.desc.DefaultProduces, status, obs.ran, obs.produces)
+		case ct == "" && success == http.StatusNoContent:
+			// a response without content need not name a type; one that does names the chosen one
+			m.Class("handler:no-content-without-content-type")
 		case ct != want.Offer:
 			mode = "wrong-content-type"
 			detail = fmt.Sprintf("Accept=%q, declared produces=%q (observed order %q), default=%q: Content-Type %q, statement gives %q", lines, declared, obs.produces, b.desc.DefaultProduces, ct, want.Offer)
@@ -1001,7 +1084,7 @@ func runHandlerReplay(m *mon.M, c *Case) {
 	for i := 0; i < 400; i++ {
 		var ctx *middleware.Context
 		h, ctx = b.handler(c.Flow == "generated-routable")
-		if len(c.WantOrder) == 0 || sameList(producesOf(ctx, c.Op), c.WantOrder) {
+		if len(c.WantOrder) == 0 || sameList(producesOf(ctx, c.API.method(c.Op), c.Op), c.WantOrder) {
 			break
 		}
 	}
@@ -1019,7 +1102,9 @@ func runHandlerReplay(m *mon.M, c *Case) {
 
 // ---- generation ----
 
-func genAPI(r *rand.Rand) *APIDesc {
+// genAPI draws a description. ro is a PRNG of its own for the operations' methods and declared success responses
+// (the draws of r are what they were without them).
+func genAPI(r, ro *rand.Rand) *APIDesc {
 	d := &APIDesc{}
 	switch k := r.Intn(20); {
 	case k < 11:
@@ -1070,30 +1155,63 @@ func genAPI(r *rand.Rand) *APIDesc {
 		if len(d.Global) == 0 || r.Intn(3) > 0 {
 			op.Produces = list()
 		}
+		if ro != nil {
+			// the declared success response: 200 for two operations in three, else 204 (the typical DELETE / PUT), 201, 202
+			switch k := ro.Intn(12); {
+			case k < 2:
+				op.Success = http.StatusNoContent
+			case k == 2:
+				op.Success = http.StatusCreated
+			case k == 3:
+				op.Success = http.StatusAccepted
+			}
+			switch k := ro.Intn(8); {
+			case k == 0:
+				op.Method = "put"
+			case k < 3:
+				op.Method = "delete"
+				if ro.Intn(2) == 0 {
+					op.Success = http.StatusNoContent
+				}
+			}
+			op.ErrDefault = ro.Intn(3) == 0
+		}
 		d.Ops = append(d.Ops, op)
 	}
 	d.Post = r.Intn(2) == 0
 	return d
 }
 
-func genLines(r *rand.Rand, types []string) (lines []string, absent bool, flavour string) {
+// genLines draws the field lines of one header. rq is a PRNG of its own for the q-values raised above 1 (one header
+// in raiseEvery): the draws of r, and with them every header that is not raised, are what they were without it.
+func genLines(r, rq *rand.Rand, types []string) (lines []string, absent bool, flavour string) {
 	if r.Intn(14) == 0 {
 		return nil, true, "absent"
 	}
+	raised := ""
+	raise := func(h accept.Header) {
+		if rq != nil && rq.Intn(raiseEvery) == 0 && raiseQ(rq, h) {
+			raised = "+q-above-1"
+		}
+	}
 	switch r.Intn(100) {
 	case 0: // "any number of ranges"
-		return genManyRanges(r, types, false), false, "many-ranges"
+		l := genManyRanges(r, types, false, raise)
+		return l, false, "many-ranges" + raised
 	case 1: // "multiple header lines"
-		return genManyRanges(r, types, true), false, "many-field-lines"
+		l := genManyRanges(r, types, true, raise)
+		return l, false, "many-field-lines" + raised
 	}
 	fl := accept.PickFlavour(r)
 	h := accept.GenHeader(r, fl, types)
-	return accept.WithEmptyElements(r, h.Render(accept.OWS(r))), false, accept.FlavourNames[fl]
+	raise(h)
+	return accept.WithEmptyElements(r, h.Render(accept.OWS(r))), false, accept.FlavourNames[fl] + raised
 }
 
 func run(m *mon.M) {
 	// function level, G1
 	r := m.Rand("g1")
+	rq := m.Rand("q-above-1")
 	n := m.N(60000, 1500000)
 	for i := 0; i < n; i++ {
 		var c *Case
@@ -1111,13 +1229,18 @@ func run(m *mon.M) {
 			long := r.Intn(4) == 0
 			var lines []string
 			absent := r.Intn(20) == 0
+			fl := "enc"
 			if !absent {
-				lines = accept.WithEmptyElements(r, accept.GenCodingHeader(r, long).Render(accept.OWS(r)))
+				h := accept.GenCodingHeader(r, long)
+				if rq.Intn(raiseEvery) == 0 && raiseQ(rq, h) {
+					fl += "+q-above-1"
+				}
+				lines = accept.WithEmptyElements(r, h.Render(accept.OWS(r)))
 			}
 			c = &Case{Kind: "enc", Absent: absent, Lines: mon.QS(lines), Offers: mon.QS(accept.GenCodingOffers(r))}
-			m.Class("flavour:enc")
+			m.Class("flavour:" + fl)
 		} else {
-			lines, absent, fl := genLines(r, accept.Types)
+			lines, absent, fl := genLines(r, rq, accept.Types)
 			c = &Case{Kind: "type", Absent: absent, Lines: mon.QS(lines), Offers: mon.QS(accept.GenOffers(r)), Default: mon.Q(accept.GenDefault(r))}
 			m.Class("flavour:" + fl)
 		}
@@ -1140,7 +1263,7 @@ func run(m *mon.M) {
 			if r2.Intn(2) == 0 {
 				lines = append(lines, accept.GenBytes(r2))
 			} else {
-				l, _, _ := genLines(r2, accept.Types)
+				l, _, _ := genLines(r2, rq, accept.Types)
 				s := strings.Join(l, ",")
 				for e := 1 + r2.Intn(3); e > 0; e-- {
 					s = accept.Mutate(r2, s)
@@ -1154,10 +1277,11 @@ func run(m *mon.M) {
 	}
 	// API handler level
 	r3 := m.Rand("handler")
+	ro := m.Rand("handler-operations")
 	napi := m.N(60, 1000)
 	nreq := 30
 	for a := 0; a < napi; a++ {
-		d := genAPI(r3)
+		d := genAPI(r3, ro)
 		m.Begin(map[string]interface{}{"kind": "handler-api", "api": d})
 		b, err := build(d)
 		if err != nil {
@@ -1190,7 +1314,7 @@ func run(m *mon.M) {
 				t = append(t, accept.Types[r3.Intn(len(accept.Types))])
 				types = t
 			}
-			lines, absent, fl := genLines(r3, types)
+			lines, absent, fl := genLines(r3, rq, types)
 			c := &Case{Kind: "handler", Absent: absent, Lines: mon.QS(lines), API: d, Op: op}
 			h := hs[q%len(hs)]
 			switch r3.Intn(6) {
@@ -1208,7 +1332,7 @@ func run(m *mon.M) {
 			if !absent && len(lines) > 1 {
 				// follow-ups on the same handler that share the first field line with the request just served
 				// but are to be negotiated differently
-				other, _, _ := genLines(r3, types)
+				other, _, _ := genLines(r3, rq, types)
 				for _, fl := range [][]string{lines[:1], append([]string{lines[0]}, other...)} {
 					f := &Case{Kind: "handler", Lines: mon.QS(fl), API: d, Op: op, Flow: c.Flow, Body: c.Body, Earlier: [][]mon.Q{mon.QS(lines)}}
 					m.Class("handler-flavour:follow-up-sharing-first-line")
